@@ -17,7 +17,7 @@
     distinct locations, which holds for trees built from Go maps), and references that
     leave the document (decided by the correspondence over generated universes). *)
 From Coq Require Import List NArith ZArith QArith Bool.
-From JS Require Import Str Lit Json Res GoValue Schema Basic Pointer PointerFacts ChildFacts Addressable Env Uri Resolve ResolveFacts ResolveTotal Designate DesignateDocs LexFun.
+From JS Require Import Str Lit Json Res GoValue Schema Basic Pointer PointerFacts ChildFacts Addressable Env Uri Resolve ResolveFacts ResolveTotal Designate DesignateDocs LexFun Validate NoPanic ResolveEnvOK.
 Import ListNotations.
 
 Theorem C03_pointer_fragment_sound : forall s ptr p c,
@@ -127,6 +127,25 @@ Theorem C03_docs_lexical : forall re_ok loader rootDraft7 fuel root base st' k,
   INV st' /\ k = 0%nat /\ exists d0, nth_error (r_docs st') 0 = Some d0 /\ di_root d0 = root /\ DocLex d0 base.
 Proof. exact resolve_docs_lexical. Qed.
 Print Assumptions C03_docs_lexical.
+
+(** when Resolve succeeds every reference of every document it holds has been resolved: the
+    Resolved records a target for each $ref and each $dynamicRef, and the target is a subschema of
+    one of the documents held (a node of the Resolved) - never a dangling or foreign value *)
+Theorem C03_every_ref_resolved : forall re_ok fuel root baseURI loader e calls,
+  wfs root -> (forall u s, call_loader loader u = Some s -> wfs s) ->
+  Resolve re_ok fuel root baseURI loader = Ok (e, calls) ->
+  forall l s, node_at e l = Some s ->
+    exists i, info_at e l = Some i /\
+      (nonempty (s_ref s) = true -> exists t c, ri_ref i = Some t /\ node_at e t = Some c) /\
+      (nonempty (s_dynamicRef s) = true -> exists t c, ri_dynref i = Some t /\ node_at e t = Some c).
+Proof.
+  intros re_ok fuel root baseURI loader e calls Hw Hl H l s Hs.
+  destruct (Resolve_EnvOK re_ok fuel root baseURI loader e calls Hw Hl H) as [Hok _].
+  destruct (ok_info e Hok l s Hs) as (i & Hi & _ & Hr & Hd). exists i. split; [exact Hi|]. split.
+  - intros Hne. destruct (Hr Hne) as (t & Ht & [c Hc]). eauto.
+  - intros Hne. destruct (Hd Hne) as (t & Ht & [c Hc]). eauto.
+Qed.
+Print Assumptions C03_every_ref_resolved.
 
 (** non-vacuity / regression witnesses on the resolver model: a diamond of loader
     documents with an anchor fragment into a cached document (the former panic O-1), each
